@@ -259,16 +259,28 @@ func Gen(t *simkit.Tape, sched bool) *Scenario {
 		}
 		s.Tree = append(s.Tree, f)
 	}
-	if t.Bool(1, 14) {
-		// one large, regular file (size swarm: output blocks beyond 64 KiB)
-		n := 700 + t.Draw(200)
-		var b strings.Builder
-		b.WriteString("<big>")
-		for i := 0; i < n; i++ {
-			fmt.Fprintf(&b, "<row id=\"%d\"><!--c%d-->value number %d, padded so that the block of this one file is well beyond 64 KiB</row>", i, i, i)
+	bigDen := 14
+	if sched {
+		bigDen = 8
+	}
+	if t.Bool(1, bigDen) {
+		// large, regular files (size swarm: output blocks beyond 64 KiB). In
+		// scheduled scenarios usually two of them, so that two workers are in
+		// their (long) printing phases at the same time.
+		nbig := 1
+		if sched && t.Bool(2, 3) {
+			nbig = 2
 		}
-		b.WriteString("</big>")
-		s.Tree = append(s.Tree, FileSpec{Rel: fmt.Sprintf("f%d-big.xml", nfiles), Kind: "xml", Content: []byte(b.String()), Fault: "large"})
+		for k := 0; k < nbig; k++ {
+			n := 700 + t.Draw(200)
+			var b strings.Builder
+			b.WriteString("<big>")
+			for i := 0; i < n; i++ {
+				fmt.Fprintf(&b, "<row id=\"%d\"><!--c%d-->value %d of large file %d, padded so that the block of this one file is well beyond 64 KiB</row>", i, i, i, k)
+			}
+			b.WriteString("</big>")
+			s.Tree = append(s.Tree, FileSpec{Rel: fmt.Sprintf("f%d-big%d.xml", nfiles, k), Kind: "xml", Content: []byte(b.String()), Fault: "large"})
+		}
 	}
 	// arguments: files individually, or directories
 	if len(dirs) > 1 && t.Bool(1, 2) {
